@@ -3,6 +3,7 @@ import AscaVerif.Model.Render
 import AscaVerif.Model.ParseWord
 import AscaVerif.Model.Alias
 import AscaVerif.Model.CliFiles
+import AscaVerif.Model.Config
 import AscaVerif.Model.Interp.Apply
 /-! Line-protocol driver for the model (compiled `lean_exe`; imports the model only — core Lean). -/
 open Asca
@@ -375,6 +376,54 @@ def parseGroupsIn : Nat → List String → Option (List Cli.Group × List Strin
       pure ({ name := name, rules := rules, desc := desc } :: gs, r5)
     | [] => none
 
+/-! ## `seq` projects: `plan …` (see harness/src/c20.rs) answers, per tag, the validated chain and the groups each entry selects -/
+def lowerAscii (t : Text) : Text := t.map fun c => if 65 ≤ c && c ≤ 90 then c + 32 else c
+
+def parseOptCounted (ts : List String) : Option (Option Text × List String) :=
+  match ts with
+  | "-" :: rest => some (none, rest)
+  | _ => (parseCounted ts).map fun (t, r) => (some t, r)
+
+def parseFiles : Nat → List String → Option (List (List Text) × List String)
+  | 0, ts => some ([], ts)
+  | n + 1, k :: ts => do
+    let k ← k.toNat?
+    let (names, rest) ← parseCountedList k ts
+    let (fs, rest') ← parseFiles n rest
+    pure (names :: fs, rest')
+  | _, _ => none
+
+def parseEntriesC : Nat → List String → Option (List Cfg.Entry × List String)
+  | 0, ts => some ([], ts)
+  | n + 1, f :: kind :: k :: ts => do
+    let f ← f.toNat?; let k ← k.toNat?
+    let (names, rest) ← parseCountedList k ts
+    let filt ← (match kind with | "N" => some Cfg.Filter.none | "W" => some (Cfg.Filter.without names) | "O" => some (Cfg.Filter.only names) | _ => none)
+    let (es, rest') ← parseEntriesC n rest
+    pure ({ file := f, filter := filt } :: es, rest')
+  | _, _ => none
+
+def parseTagsC : Nat → List String → Option (List Cfg.Seq × List String)
+  | 0, ts => some ([], ts)
+  | n + 1, ts => do
+    let (tag, r1) ← parseCounted ts
+    let (frm, r2) ← parseOptCounted r1
+    match r2 with
+    | ne :: r3 =>
+      let ne ← ne.toNat?
+      let (es, r4) ← parseEntriesC ne r3
+      let (tl, r5) ← parseTagsC n r4
+      pure ({ tag := tag, frm := frm, entries := es } :: tl, r5)
+    | [] => none
+
+def showPlan (files : List (List Text)) (conf : List Cfg.Seq) : String :=
+  if !Cfg.validate conf then "invalid-config" else
+  " ; ".intercalate (conf.map fun s =>
+    String.ofList (s.tag.map Char.ofNat) ++ " | " ++ " ".intercalate (s.entries.map fun e =>
+      match Cfg.select lowerAscii (files.getD e.file []) e.filter with
+      | .ok idx => s!"r{e.file}:" ++ ",".intercalate (idx.map toString)
+      | .error m => s!"r{e.file}:error"))
+
 def handleOp (st : DState) (line : String) : DState × String :=
   let ts := (line.splitOn " ").filter (· != "")
   match ts with
@@ -423,6 +472,10 @@ def handleOp (st : DState) (line : String) : DState × String :=
   | "toalias" :: n :: rest =>
     match n.toNat? >>= fun n => parseCountedList n rest >>= fun (i, r) => (match r with | m :: r' => m.toNat? >>= fun m => parseCountedList m r' | [] => none) >>= fun (f, _) => some (i, f) with
     | some (i, f) => (st, jText (Cli.toAlias i f))
+    | none => (st, "bad-op")
+  | "plan" :: n :: rest =>
+    match n.toNat? >>= fun n => parseFiles n rest >>= fun (files, r) => (match r with | m :: r' => m.toNat? >>= fun m => parseTagsC m r' | [] => none) >>= fun (conf, _) => some (files, conf) with
+    | some (files, conf) => (st, showPlan files conf)
     | none => (st, "bad-op")
   | "apply" :: rest => (st, opApply false rest)
   | "applyv" :: rest => (st, opApply true rest)
